@@ -76,7 +76,34 @@ def roundtrip(res, case, v, bucket=None):
     if tell != expect_tell:
         res.violation(f"consumed:{kkey(case)}", f"{case.label}: decode consumed {tell} bytes of a {expect_tell}-byte encoding (+{len(data) - expect_tell} junk)",
                       {"type": case.label, "value": v, "encoded": enc})
+    # The decoded value belongs to the caller: whatever the caller does to it (read-modify-write of a bit list, clearing a
+    # dict) may not change what a later decode of the same bytes returns - "decoding the encoding returns the value" every time.
+    if isinstance(got, (list, dict)) and got:
+        scramble(got)
+        st2, got2, _ = lib_decode(case.lib, data)
+        res.ev()
+        if st2 != "ok" or not rc.values_equal(desc, want, got2):
+            res.violation(f"decoded-value-shared:{kkey(case)}",
+                          f"{case.label}: after the caller modified the list/dict returned by decode, decoding the same bytes again gives {got2!r:.140}, expected {want!r:.140}",
+                          {"type": case.label, "value": v, "encoded": enc})
     return enc
+
+
+def scramble(x):
+    """destructively modify a decoded container in place (all nested containers first)"""
+    items = list(x.values()) if isinstance(x, dict) else list(x)
+    for it in items:
+        if isinstance(it, (list, dict)):
+            scramble(it)
+    if isinstance(x, dict):
+        for k in list(x):
+            x[k] = "scrambled"
+        x.clear()
+    else:
+        for i in range(len(x)):
+            x[i] = (not x[i]) if isinstance(x[i], bool) else "scrambled"
+        x.reverse()
+        del x[len(x) // 2:]
 
 
 def run(ctx):
